@@ -113,6 +113,11 @@ func (st *State) leafBase(loc *Loc, j int) (key string, lf Leaf, cur *Term) {
 }
 
 func (st *State) load(loc *Loc) Val {
+	if loc.Alt != nil {
+		main := *loc
+		main.Alt, main.Cond = nil, nil
+		return iteVal(loc.Cond, st.load(loc.Alt), st.load(&main))
+	}
 	n := len(layoutOf(loc.T).Leaves)
 	if loc.Mem && loc.EIdx == nil && n != len(layoutOf(loc.RootT).Leaves) {
 		panic("whole-array loc leaf mismatch")
@@ -140,6 +145,14 @@ func storeNested(a *Term, idx []*Term, v *Term) *Term {
 }
 
 func (st *State) store(loc *Loc, v Val) {
+	if loc.Alt != nil {
+		main := *loc
+		main.Alt, main.Cond = nil, nil
+		v.Loc = nil
+		st.store(loc.Alt, iteVal(loc.Cond, v, st.load(loc.Alt)))
+		st.store(&main, iteVal(loc.Cond, st.load(&main), v))
+		return
+	}
 	n := len(layoutOf(loc.T).Leaves)
 	if len(v.L) != n {
 		panic(fmt.Sprintf("store: %d leaves into %s (%d)", len(v.L), loc.T, n))
